@@ -26,10 +26,11 @@ type State struct {
 	heap  map[string]string
 	epoch int
 	alloc string
+	hparam *recInfo // non-nil: heap reads become parameters (recursive spec functions, lemmas)
 }
 
 func (s *State) clone() *State {
-	n := &State{pc: s.pc, epoch: s.epoch, alloc: s.alloc,
+	n := &State{pc: s.pc, epoch: s.epoch, alloc: s.alloc, hparam: s.hparam,
 		vars: make(map[types.Object]Val, len(s.vars)), heap: make(map[string]string, len(s.heap))}
 	for k, v := range s.vars {
 		n.vars[k] = v
@@ -150,6 +151,8 @@ type FnCtx struct {
 	callN    map[string]int
 	recFns   map[string]bool
 	curStmtPos token.Pos
+	recInfos map[string]*recInfo
+	recStack []*recInfo
 	Pruned   []string // paths ended at an unsupported statement (contracts marked `partial`)
 }
 
@@ -577,6 +580,21 @@ func (c *FnCtx) heapGet(st *State, key, sort string, typ types.Type) string {
 	if c.heapSort[key] == "" {
 		c.heapSort[key] = sort
 		c.heapType[key] = typ
+	}
+	if st.hparam != nil {
+		// body of a recursive spec function / lemma: the cell becomes a parameter (bound variable)
+		info := st.hparam
+		found := false
+		for _, k := range info.keys {
+			if k == key {
+				found = true
+			}
+		}
+		if !found {
+			info.keys = append(info.keys, key)
+			info.sorts = append(info.sorts, sort)
+		}
+		return info.prefix + sanitize(key)
 	}
 	name := fmt.Sprintf("%s!e%d", sanitize(key), st.epoch)
 	c.declConst(name, sort)
